@@ -131,6 +131,11 @@ class SoftwareManager:
                 config=software_config,
             )
 
+        if software.name in self.software:
+            # e.g. pre-installed system software that a scenario configures again: the new installation replaces the
+            # old one instead of leaving a second, unmanaged instance in the node's service/application list
+            self.uninstall(software.name)
+
         software.parent = self.node
         if isinstance(software, Application):
             self.node.applications[software.uuid] = software
